@@ -291,6 +291,8 @@ class Facts:
         self._cache = {}
         self._callers = None
         self._cha = None
+        self._closures = None
+        self._promoteds = None
         self.n_bodies = len(self.index)
 
     # -- bodies ---------------------------------------------------------------------------
@@ -314,14 +316,35 @@ class Facts:
     def find(self, substr):
         return [i["name"] for i in self.index if substr in i["name"]]
 
+    def _build_children(self):
+        self._closures = {}
+        self._promoteds = {}
+        for i in self.index:
+            n = i["name"]
+            k = n.find("::{closure#")
+            if k >= 0:
+                # register under every ancestor prefix (transitively nested closures)
+                pos = 0
+                while True:
+                    k = n.find("::{closure#", pos)
+                    if k < 0:
+                        break
+                    self._closures.setdefault(n[:k], []).append(n)
+                    pos = k + 1
+            k = n.rfind("::{promoted#")
+            if k >= 0:
+                self._promoteds.setdefault(n[:k], []).append(n)
+
     def closures_of(self, name):
         """all (transitively nested) closure bodies of a function"""
-        pre = name + "::{closure#"
-        return [i["name"] for i in self.index if i["name"].startswith(pre)]
+        if self._closures is None:
+            self._build_children()
+        return [c for c in self._closures.get(name, []) if "::{promoted#" not in c[len(name):] or True]
 
     def promoteds_of(self, name):
-        pre = name + "::{promoted#"
-        return [i["name"] for i in self.index if i["name"].startswith(pre)]
+        if self._closures is None:
+            self._build_children()
+        return list(self._promoteds.get(name, []))
 
     def family(self, name):
         """a function plus its closures (the unit a human reads as 'the function')"""
